@@ -14,9 +14,10 @@
      event loop  EAdd n    fillDataToReadBuffer: pendingData.add                           (389)
                  EFin      ... state == closed ? clear : asyncNotify(recvNotifyCh)          (391-397)
      peer close  PClose1 / PClose2     halfClose: CAS opened->halfClosed ; safeCloseNotify   (336-338)
-     local close LLoad / LCas / LClean / LNotify   Stream.close: casToClosed (load state; CAS ->closed; a lost
-                                       CAS loads again: LRetry); clean(); safeCloseNotify if the old state
-                                       was opened or localHalfClosed
+     local close LLoad / LCas / LNotify / LClean   Stream.close: casToClosed (load state; CAS ->closed; a lost
+                                       CAS loads again: LRetry); safeCloseNotify if the old state was opened
+                                       or localHalfClosed; then asyncGoroutineWg.Wait() (blocks while an
+                                       OnData runs, SetCb = callbacks installed) and clean()
                  LDefer1 / LDefer2   Stream.Close that finds an OnData callback in progress:
                            CAS opened->localHalfClosed (the close itself is deferred to the callback goroutine),
                            then - if the CAS succeeded - safeCloseNotify
@@ -44,7 +45,7 @@ Inductive sst := SOpen | SClosed | SHalf | SLocalHalf.
 (* streamOpened / streamClosed / streamHalfClosed (by the peer) / streamLocalHalfClosed (a local Close that
    found an OnData callback running; the callback goroutine completes it) - Gen/Consts.v c_stream* *)
 Inductive rpc := RIdle | RCheck | RState | RArm | RParked | RWokeN | RWokeC | RDone.
-Inductive lpc := LIdle | LRetry | LLoaded (old : sst) | LCased (old : sst) | LCleaned (old : sst).
+Inductive lpc := LIdle | LRetry | LLoaded (old : sst) | LCased (old : sst) | LNotified (old : sst) | LCleaned (old : sst).
 Inductive result := ROk (len : nat) | RErrTimeout | RErrEOS | RErrClosed.
 Inductive branch := BNotify | BClose | BTimer.
 
@@ -59,6 +60,7 @@ Record st := {
   lc : lpc;            (* Stream.close in progress *)
   sclosing : bool;     (* Session.Close has notified this stream *)
   dpc : bool;          (* a Stream.Close that found a callback in progress is between its CAS and safeCloseNotify *)
+  cbmode : bool;       (* StreamCallbacks are installed: the reader of this model is an OnData of the callback goroutine *)
   now : Z;
   dl : option Z;       (* s.readDeadline (None = zero time) *)
   tmr : option Z;      (* the timer is armed and fires at this time *)
@@ -73,6 +75,7 @@ Inductive ev :=
 | EAdd (n : nat) | EFin
 | PClose1 | PClose2
 | LLoad | LCas | LClean | LNotify
+| SetCb
 | LDefer1 | LDefer2
 | SClose
 | SetDL (d : option Z)
@@ -81,7 +84,7 @@ Inductive ev :=
 
 Definition init : st :=
   {| pend := 0; rbuf := 0; token := false; closeN := false; ss := SOpen; epc := false; ppc := false; lc := LIdle;
-     sclosing := false; dpc := false; now := 0; dl := None; tmr := None; tch := false; ptick := false; use_t := false; armed := 0;
+     sclosing := false; dpc := false; cbmode := false; now := 0; dl := None; tmr := None; tch := false; ptick := false; use_t := false; armed := 0;
      rd := RIdle; minsz := 0; res := None |}.
 
 Definition sst_code (x : sst) : Z :=
@@ -93,23 +96,23 @@ Definition sst_eqb (a b : sst) : bool :=
 (* return before the timer section: no deferred cleanup *)
 Definition finish_early (s : st) (r : result) : st :=
   {| pend := pend s; rbuf := rbuf s; token := token s; closeN := closeN s; ss := ss s; epc := epc s; ppc := ppc s;
-     lc := lc s; sclosing := sclosing s; dpc := dpc s; now := now s; dl := dl s; tmr := tmr s; tch := tch s; ptick := ptick s; use_t := use_t s;
+     lc := lc s; sclosing := sclosing s; dpc := dpc s; cbmode := cbmode s; now := now s; dl := dl s; tmr := tmr s; tch := tch s; ptick := ptick s; use_t := use_t s;
      armed := armed s; rd := RDone; minsz := minsz s; res := Some r |}.
 (* return from the select loop: `defer timer.Stop()` (the timer - and its channel - belong to this call only;
    a value still on its way lands in a channel nobody reads again) *)
 Definition finish_late (s : st) (r : result) : st :=
   {| pend := pend s; rbuf := rbuf s; token := token s; closeN := closeN s; ss := ss s; epc := epc s; ppc := ppc s;
-     lc := lc s; sclosing := sclosing s; dpc := dpc s; now := now s; dl := dl s; tmr := None; tch := tch s; ptick := ptick s; use_t := use_t s;
+     lc := lc s; sclosing := sclosing s; dpc := dpc s; cbmode := cbmode s; now := now s; dl := dl s; tmr := None; tch := tch s; ptick := ptick s; use_t := use_t s;
      armed := armed s; rd := RDone; minsz := minsz s; res := Some r |}.
 
 Definition move_to (s : st) : st :=
   {| pend := 0; rbuf := (rbuf s + pend s)%nat; token := token s; closeN := closeN s; ss := ss s; epc := epc s;
-     ppc := ppc s; lc := lc s; sclosing := sclosing s; dpc := dpc s; now := now s; dl := dl s; tmr := tmr s; tch := tch s; ptick := ptick s;
+     ppc := ppc s; lc := lc s; sclosing := sclosing s; dpc := dpc s; cbmode := cbmode s; now := now s; dl := dl s; tmr := tmr s; tch := tch s; ptick := ptick s;
      use_t := use_t s; armed := armed s; rd := rd s; minsz := minsz s; res := res s |}.
 
 Definition set_rd (s : st) (p : rpc) : st :=
   {| pend := pend s; rbuf := rbuf s; token := token s; closeN := closeN s; ss := ss s; epc := epc s; ppc := ppc s;
-     lc := lc s; sclosing := sclosing s; dpc := dpc s; now := now s; dl := dl s; tmr := tmr s; tch := tch s; ptick := ptick s; use_t := use_t s;
+     lc := lc s; sclosing := sclosing s; dpc := dpc s; cbmode := cbmode s; now := now s; dl := dl s; tmr := tmr s; tch := tch s; ptick := ptick s; use_t := use_t s;
      armed := armed s; rd := p; minsz := minsz s; res := res s |}.
 
 Definition reader_step (s : st) : st :=
@@ -124,11 +127,11 @@ Definition reader_step (s : st) : st :=
     match dl s with
     | Some d =>
       {| pend := pend s; rbuf := rbuf s; token := token s; closeN := closeN s; ss := ss s; epc := epc s; ppc := ppc s;
-         lc := lc s; sclosing := sclosing s; dpc := dpc s; now := now s; dl := dl s; tmr := Some d; tch := false; ptick := false; use_t := true;
+         lc := lc s; sclosing := sclosing s; dpc := dpc s; cbmode := cbmode s; now := now s; dl := dl s; tmr := Some d; tch := false; ptick := false; use_t := true;
          armed := d; rd := RParked; minsz := minsz s; res := res s |}
     | None =>
       {| pend := pend s; rbuf := rbuf s; token := token s; closeN := closeN s; ss := ss s; epc := epc s; ppc := ppc s;
-         lc := lc s; sclosing := sclosing s; dpc := dpc s; now := now s; dl := dl s; tmr := tmr s; tch := tch s; ptick := ptick s; use_t := false;
+         lc := lc s; sclosing := sclosing s; dpc := dpc s; cbmode := cbmode s; now := now s; dl := dl s; tmr := tmr s; tch := tch s; ptick := ptick s; use_t := false;
          armed := armed s; rd := RParked; minsz := minsz s; res := res s |}
     end
   | RWokeN =>
@@ -144,7 +147,7 @@ Definition reader_step (s : st) : st :=
 (* `<-timeoutCh`: the value is received *)
 Definition take_tick (s : st) : st :=
   {| pend := pend s; rbuf := rbuf s; token := token s; closeN := closeN s; ss := ss s; epc := epc s; ppc := ppc s;
-     lc := lc s; sclosing := sclosing s; dpc := dpc s; now := now s; dl := dl s; tmr := tmr s; tch := false; ptick := ptick s; use_t := use_t s;
+     lc := lc s; sclosing := sclosing s; dpc := dpc s; cbmode := cbmode s; now := now s; dl := dl s; tmr := tmr s; tch := false; ptick := ptick s; use_t := use_t s;
      armed := armed s; rd := rd s; minsz := minsz s; res := res s |}.
 
 Definition wake (s : st) (b : branch) : st :=
@@ -154,7 +157,7 @@ Definition wake (s : st) (b : branch) : st :=
     | BNotify =>
       if token s then
         {| pend := pend s; rbuf := rbuf s; token := false; closeN := closeN s; ss := ss s; epc := epc s; ppc := ppc s;
-           lc := lc s; sclosing := sclosing s; dpc := dpc s; now := now s; dl := dl s; tmr := tmr s; tch := tch s; ptick := ptick s; use_t := use_t s;
+           lc := lc s; sclosing := sclosing s; dpc := dpc s; cbmode := cbmode s; now := now s; dl := dl s; tmr := tmr s; tch := tch s; ptick := ptick s; use_t := use_t s;
            armed := armed s; rd := RWokeN; minsz := minsz s; res := res s |}
       else s
     | BClose => if closeN s then set_rd s RWokeC else s
@@ -163,13 +166,20 @@ Definition wake (s : st) (b : branch) : st :=
   | _ => s
   end.
 
-Definition step (s : st) (e : ev) : st :=
+(* the callback goroutine is inside OnData (asyncGoroutineWg.Wait() of close() blocks) *)
+Definition cb_busy (s : st) : bool :=
+  cbmode s && match rd s with RIdle | RDone => false | _ => true end.
+
+(* nf ("notify first") = the order of Stream.close after winning casToClosed:
+     true  (the code): safeCloseNotify ; asyncGoroutineWg.Wait() ; clean()
+     false (the order before the repair, kept for the regression example): Wait() ; clean() ; safeCloseNotify *)
+Definition step_gen (nf : bool) (s : st) (e : ev) : st :=
   match e with
   | RCall m =>
     match rd s with
     | RIdle | RDone =>
       {| pend := pend s; rbuf := rbuf s; token := token s; closeN := closeN s; ss := ss s; epc := epc s; ppc := ppc s;
-         lc := lc s; sclosing := sclosing s; dpc := dpc s; now := now s; dl := dl s; tmr := tmr s; tch := tch s; ptick := ptick s; use_t := false;
+         lc := lc s; sclosing := sclosing s; dpc := dpc s; cbmode := cbmode s; now := now s; dl := dl s; tmr := tmr s; tch := tch s; ptick := ptick s; use_t := false;
          armed := armed s; rd := RCheck; minsz := m; res := None |}
     | _ => s
     end
@@ -178,30 +188,30 @@ Definition step (s : st) (e : ev) : st :=
   | EAdd n =>
     if epc s || (n =? 0)%nat then s else
       {| pend := (pend s + n)%nat; rbuf := rbuf s; token := token s; closeN := closeN s; ss := ss s; epc := true;
-         ppc := ppc s; lc := lc s; sclosing := sclosing s; dpc := dpc s; now := now s; dl := dl s; tmr := tmr s; tch := tch s; ptick := ptick s;
+         ppc := ppc s; lc := lc s; sclosing := sclosing s; dpc := dpc s; cbmode := cbmode s; now := now s; dl := dl s; tmr := tmr s; tch := tch s; ptick := ptick s;
          use_t := use_t s; armed := armed s; rd := rd s; minsz := minsz s; res := res s |}
   | EFin =>
     if epc s then
       if sst_eqb (ss s) SClosed then
         {| pend := 0; rbuf := 0; token := token s; closeN := closeN s; ss := ss s; epc := false;
-           ppc := ppc s; lc := lc s; sclosing := sclosing s; dpc := dpc s; now := now s; dl := dl s; tmr := tmr s; tch := tch s; ptick := ptick s;
+           ppc := ppc s; lc := lc s; sclosing := sclosing s; dpc := dpc s; cbmode := cbmode s; now := now s; dl := dl s; tmr := tmr s; tch := tch s; ptick := ptick s;
            use_t := use_t s; armed := armed s; rd := rd s; minsz := minsz s; res := res s |}
       else
         {| pend := pend s; rbuf := rbuf s; token := true; closeN := closeN s; ss := ss s; epc := false;
-           ppc := ppc s; lc := lc s; sclosing := sclosing s; dpc := dpc s; now := now s; dl := dl s; tmr := tmr s; tch := tch s; ptick := ptick s;
+           ppc := ppc s; lc := lc s; sclosing := sclosing s; dpc := dpc s; cbmode := cbmode s; now := now s; dl := dl s; tmr := tmr s; tch := tch s; ptick := ptick s;
            use_t := use_t s; armed := armed s; rd := rd s; minsz := minsz s; res := res s |}
     else s
   | PClose1 =>
     if ppc s then s else
       if sst_eqb (ss s) SOpen then
         {| pend := pend s; rbuf := rbuf s; token := token s; closeN := closeN s; ss := SHalf; epc := epc s;
-           ppc := true; lc := lc s; sclosing := sclosing s; dpc := dpc s; now := now s; dl := dl s; tmr := tmr s; tch := tch s; ptick := ptick s;
+           ppc := true; lc := lc s; sclosing := sclosing s; dpc := dpc s; cbmode := cbmode s; now := now s; dl := dl s; tmr := tmr s; tch := tch s; ptick := ptick s;
            use_t := use_t s; armed := armed s; rd := rd s; minsz := minsz s; res := res s |}
       else s
   | PClose2 =>
     if ppc s then
       {| pend := pend s; rbuf := rbuf s; token := token s; closeN := true; ss := ss s; epc := epc s;
-         ppc := false; lc := lc s; sclosing := sclosing s; dpc := dpc s; now := now s; dl := dl s; tmr := tmr s; tch := tch s; ptick := ptick s;
+         ppc := false; lc := lc s; sclosing := sclosing s; dpc := dpc s; cbmode := cbmode s; now := now s; dl := dl s; tmr := tmr s; tch := tch s; ptick := ptick s;
          use_t := use_t s; armed := armed s; rd := rd s; minsz := minsz s; res := res s |}
     else s
   | LLoad =>
@@ -210,11 +220,11 @@ Definition step (s : st) (e : ev) : st :=
       if sst_eqb (ss s) SClosed then
         (* casToClosed: already closed: return (not won) *)
         {| pend := pend s; rbuf := rbuf s; token := token s; closeN := closeN s; ss := ss s; epc := epc s;
-           ppc := ppc s; lc := LIdle; sclosing := sclosing s; dpc := dpc s; now := now s; dl := dl s; tmr := tmr s;
+           ppc := ppc s; lc := LIdle; sclosing := sclosing s; dpc := dpc s; cbmode := cbmode s; now := now s; dl := dl s; tmr := tmr s;
            tch := tch s; ptick := ptick s; use_t := use_t s; armed := armed s; rd := rd s; minsz := minsz s; res := res s |}
       else
         {| pend := pend s; rbuf := rbuf s; token := token s; closeN := closeN s; ss := ss s; epc := epc s;
-           ppc := ppc s; lc := LLoaded (ss s); sclosing := sclosing s; dpc := dpc s; now := now s; dl := dl s; tmr := tmr s;
+           ppc := ppc s; lc := LLoaded (ss s); sclosing := sclosing s; dpc := dpc s; cbmode := cbmode s; now := now s; dl := dl s; tmr := tmr s;
            tch := tch s; ptick := ptick s; use_t := use_t s; armed := armed s; rd := rd s; minsz := minsz s; res := res s |}
     | _ => s
     end
@@ -223,27 +233,49 @@ Definition step (s : st) (e : ev) : st :=
     | LLoaded old =>
       if sst_eqb (ss s) old then
         {| pend := pend s; rbuf := rbuf s; token := token s; closeN := closeN s; ss := SClosed; epc := epc s;
-           ppc := ppc s; lc := LCased old; sclosing := sclosing s; dpc := dpc s; now := now s; dl := dl s; tmr := tmr s;
+           ppc := ppc s; lc := LCased old; sclosing := sclosing s; dpc := dpc s; cbmode := cbmode s; now := now s; dl := dl s; tmr := tmr s;
            tch := tch s; ptick := ptick s; use_t := use_t s; armed := armed s; rd := rd s; minsz := minsz s; res := res s |}
       else
         {| pend := pend s; rbuf := rbuf s; token := token s; closeN := closeN s; ss := ss s; epc := epc s;
-           ppc := ppc s; lc := LRetry; sclosing := sclosing s; dpc := dpc s; now := now s; dl := dl s; tmr := tmr s;
+           ppc := ppc s; lc := LRetry; sclosing := sclosing s; dpc := dpc s; cbmode := cbmode s; now := now s; dl := dl s; tmr := tmr s;
            tch := tch s; ptick := ptick s; use_t := use_t s; armed := armed s; rd := rd s; minsz := minsz s; res := res s |}
     | _ => s
     end
   | LClean =>
+    (* `if callbacks != nil { asyncGoroutineWg.Wait() }; clean()`: blocked while an OnData is running *)
     match lc s with
     | LCased old =>
+      if nf then s else if cb_busy s then s else
       {| pend := 0; rbuf := 0; token := token s; closeN := closeN s; ss := ss s; epc := epc s;
-         ppc := ppc s; lc := LCleaned old; sclosing := sclosing s; dpc := dpc s; now := now s; dl := dl s; tmr := tmr s;
+         ppc := ppc s; lc := LCleaned old; sclosing := sclosing s; dpc := dpc s; cbmode := cbmode s; now := now s; dl := dl s; tmr := tmr s;
          tch := tch s; ptick := ptick s; use_t := use_t s; armed := armed s; rd := rd s; minsz := minsz s; res := res s |}
+    | LNotified old =>
+      if nf then (if cb_busy s then s else
+      {| pend := 0; rbuf := 0; token := token s; closeN := closeN s; ss := ss s; epc := epc s;
+         ppc := ppc s; lc := LIdle; sclosing := sclosing s; dpc := dpc s; cbmode := cbmode s; now := now s; dl := dl s; tmr := tmr s;
+         tch := tch s; ptick := ptick s; use_t := use_t s; armed := armed s; rd := rd s; minsz := minsz s; res := res s |}) else s
     | _ => s
     end
   | LNotify =>
     match lc s with
-    | LCleaned old =>
+    | LCased old =>
+      if nf then
       {| pend := pend s; rbuf := rbuf s; token := token s; closeN := closeN s || sst_eqb old SOpen || sst_eqb old SLocalHalf; ss := ss s; epc := epc s;
-         ppc := ppc s; lc := LIdle; sclosing := sclosing s; dpc := dpc s; now := now s; dl := dl s; tmr := tmr s;
+         ppc := ppc s; lc := LNotified old; sclosing := sclosing s; dpc := dpc s; cbmode := cbmode s; now := now s; dl := dl s; tmr := tmr s;
+         tch := tch s; ptick := ptick s; use_t := use_t s; armed := armed s; rd := rd s; minsz := minsz s; res := res s |}
+      else s
+    | LCleaned old =>
+      if nf then s else
+      {| pend := pend s; rbuf := rbuf s; token := token s; closeN := closeN s || sst_eqb old SOpen || sst_eqb old SLocalHalf; ss := ss s; epc := epc s;
+         ppc := ppc s; lc := LIdle; sclosing := sclosing s; dpc := dpc s; cbmode := cbmode s; now := now s; dl := dl s; tmr := tmr s;
+         tch := tch s; ptick := ptick s; use_t := use_t s; armed := armed s; rd := rd s; minsz := minsz s; res := res s |}
+    | _ => s
+    end
+  | SetCb =>
+    match rd s with
+    | RIdle | RDone =>
+      {| pend := pend s; rbuf := rbuf s; token := token s; closeN := closeN s; ss := ss s; epc := epc s;
+         ppc := ppc s; lc := lc s; sclosing := sclosing s; dpc := dpc s; cbmode := true; now := now s; dl := dl s; tmr := tmr s;
          tch := tch s; ptick := ptick s; use_t := use_t s; armed := armed s; rd := rd s; minsz := minsz s; res := res s |}
     | _ => s
     end
@@ -253,32 +285,32 @@ Definition step (s : st) (e : ev) : st :=
     if dpc s then s else
     if sst_eqb (ss s) SOpen then
       {| pend := pend s; rbuf := rbuf s; token := token s; closeN := closeN s; ss := SLocalHalf; epc := epc s;
-         ppc := ppc s; lc := lc s; sclosing := sclosing s; dpc := true; now := now s; dl := dl s; tmr := tmr s;
+         ppc := ppc s; lc := lc s; sclosing := sclosing s; dpc := true; cbmode := cbmode s; now := now s; dl := dl s; tmr := tmr s;
          tch := tch s; ptick := ptick s; use_t := use_t s; armed := armed s; rd := rd s; minsz := minsz s; res := res s |}
     else s
   | LDefer2 =>
     (* ... but when the CAS succeeded, safeCloseNotify wakes a reader parked inside that callback *)
     if dpc s then
       {| pend := pend s; rbuf := rbuf s; token := token s; closeN := true; ss := ss s; epc := epc s;
-         ppc := ppc s; lc := lc s; sclosing := sclosing s; dpc := false; now := now s; dl := dl s; tmr := tmr s;
+         ppc := ppc s; lc := lc s; sclosing := sclosing s; dpc := false; cbmode := cbmode s; now := now s; dl := dl s; tmr := tmr s;
          tch := tch s; ptick := ptick s; use_t := use_t s; armed := armed s; rd := rd s; minsz := minsz s; res := res s |}
     else s
   | SClose =>
     {| pend := pend s; rbuf := rbuf s; token := token s; closeN := true; ss := ss s; epc := epc s;
-       ppc := ppc s; lc := lc s; sclosing := true; dpc := dpc s; now := now s; dl := dl s; tmr := tmr s;
+       ppc := ppc s; lc := lc s; sclosing := true; dpc := dpc s; cbmode := cbmode s; now := now s; dl := dl s; tmr := tmr s;
        tch := tch s; ptick := ptick s; use_t := use_t s; armed := armed s; rd := rd s; minsz := minsz s; res := res s |}
   | SetDL d =>
     match rd s with
     | RIdle | RDone =>
       {| pend := pend s; rbuf := rbuf s; token := token s; closeN := closeN s; ss := ss s; epc := epc s;
-         ppc := ppc s; lc := lc s; sclosing := sclosing s; dpc := dpc s; now := now s; dl := d; tmr := tmr s;
+         ppc := ppc s; lc := lc s; sclosing := sclosing s; dpc := dpc s; cbmode := cbmode s; now := now s; dl := d; tmr := tmr s;
          tch := tch s; ptick := ptick s; use_t := use_t s; armed := armed s; rd := rd s; minsz := minsz s; res := res s |}
     | _ => s
     end
   | Tick d =>
     if 0 <? d then
       {| pend := pend s; rbuf := rbuf s; token := token s; closeN := closeN s; ss := ss s; epc := epc s;
-         ppc := ppc s; lc := lc s; sclosing := sclosing s; dpc := dpc s; now := now s + d; dl := dl s; tmr := tmr s;
+         ppc := ppc s; lc := lc s; sclosing := sclosing s; dpc := dpc s; cbmode := cbmode s; now := now s + d; dl := dl s; tmr := tmr s;
          tch := tch s; ptick := ptick s; use_t := use_t s; armed := armed s; rd := rd s; minsz := minsz s; res := res s |}
     else s
   | Fire =>
@@ -286,7 +318,7 @@ Definition step (s : st) (e : ev) : st :=
     | Some t =>
       if t <=? now s then
         {| pend := pend s; rbuf := rbuf s; token := token s; closeN := closeN s; ss := ss s; epc := epc s;
-           ppc := ppc s; lc := lc s; sclosing := sclosing s; dpc := dpc s; now := now s; dl := dl s; tmr := None;
+           ppc := ppc s; lc := lc s; sclosing := sclosing s; dpc := dpc s; cbmode := cbmode s; now := now s; dl := dl s; tmr := None;
            tch := true; ptick := ptick s; use_t := use_t s; armed := armed s; rd := rd s; minsz := minsz s; res := res s |}
       else s
     | None => s
@@ -296,7 +328,7 @@ Definition step (s : st) (e : ev) : st :=
     | Some t =>
       if t <=? now s then
         {| pend := pend s; rbuf := rbuf s; token := token s; closeN := closeN s; ss := ss s; epc := epc s;
-           ppc := ppc s; lc := lc s; sclosing := sclosing s; dpc := dpc s; now := now s; dl := dl s; tmr := None;
+           ppc := ppc s; lc := lc s; sclosing := sclosing s; dpc := dpc s; cbmode := cbmode s; now := now s; dl := dl s; tmr := None;
            tch := tch s; ptick := true; use_t := use_t s; armed := armed s; rd := rd s; minsz := minsz s; res := res s |}
       else s
     | None => s
@@ -304,19 +336,22 @@ Definition step (s : st) (e : ev) : st :=
   | FireB =>
     if ptick s then
       {| pend := pend s; rbuf := rbuf s; token := token s; closeN := closeN s; ss := ss s; epc := epc s;
-         ppc := ppc s; lc := lc s; sclosing := sclosing s; dpc := dpc s; now := now s; dl := dl s; tmr := tmr s;
+         ppc := ppc s; lc := lc s; sclosing := sclosing s; dpc := dpc s; cbmode := cbmode s; now := now s; dl := dl s; tmr := tmr s;
          tch := true; ptick := false; use_t := use_t s; armed := armed s; rd := rd s; minsz := minsz s; res := res s |}
     else s
   end.
 
+Definition step := step_gen true.
 Definition run (evs : list ev) (s : st) : st := fold_left step evs s.
+Definition step_old_close := step_gen false.
+Definition run_old_close (evs : list ev) (s : st) : st := fold_left step_old_close evs s.
 
 (* the parked reader's select has a ready branch *)
 Definition wake_enabled (s : st) : bool := token s || closeN s || (use_t s && tch s).
 (* a helper thread is at the step that will make a branch ready *)
 Definition helper_pending (s : st) : bool :=
   epc s || ppc s || dpc s
-  || match lc s with LCased SOpen | LCleaned SOpen | LCased SLocalHalf | LCleaned SLocalHalf => true | _ => false end
+  || match lc s with LCased SOpen | LCased SLocalHalf => true | _ => false end
   || match tmr s with Some t => t <=? now s | None => false end.
 Definition is_reader_ev (e : ev) : bool := match e with RCall _ | RStep | RWake _ => true | _ => false end.
 
